@@ -187,7 +187,13 @@ def c11_case(text: str, budget_parse: int | None, budget_fn: dict | None) -> dic
             except Exception as e:
                 out["parse"] = "rejected"
                 out["parse_exc"] = type(e).__name__
-                out["parse_frame"] = innermost_scriptplan_frame(e)
+                orig = getattr(e, "orig_exc", None)  # lark.VisitError wraps what a transformer callback raised
+                if orig is not None:
+                    out["parse_exc"] += ":" + type(orig).__name__
+                    out["parse_frame"] = innermost_scriptplan_frame(orig)
+                else:
+                    out["parse_frame"] = innermost_scriptplan_frame(e)
+                out["parse_msg"] = str(orig if orig is not None else e)[:160]
             except BaseException as e:
                 out["parse"] = "escaped"
                 out["parse_exc"] = type(e).__name__
